@@ -305,7 +305,6 @@ func vC02WildCase(tr *vC02Trace, g *vC02Gen, zin *vC02Zone, useNSEC3 bool, fixed
 
 	// ground truth: an accepted, authenticated expansion claims that the next closer name does not exist directly
 	goFail := ""
-	offEnt, offOther := 0, 0 // offending next closer names: empty non-terminals under NSEC (the known finding) / anything else
 	tabNames := map[string]vC02Name{}
 	var scoq, sdesc []string
 	for _, s := range sigs {
@@ -316,11 +315,6 @@ func vC02WildCase(tr *vC02Trace, g *vC02Gen, zin *vC02Zone, useNSEC3 bool, fixed
 			tabNames[vC02Key(nc)] = nc
 			d += fmt.Sprintf(" next closer %s exists=%q", vC02Pres(nc), z.existsHow(nc))
 			if allGenuine && err == nil && secure && vC02Sub(nc, z.apex) && z.existsDirect(nc) {
-				if z.isENT(nc) && !useNSEC3 {
-					offEnt++
-				} else {
-					offOther++
-				}
 				if goFail == "" {
 					goFail = fmt.Sprintf("VerifyWildcardAnswerForZoneWithWork accepted (secure) an expansion over %s although its next closer name %s exists (%s)",
 						vC02Pres(s.owner), vC02Pres(nc), z.existsHow(nc))
@@ -361,15 +355,10 @@ func vC02WildCase(tr *vC02Trace, g *vC02Gen, zin *vC02Zone, useNSEC3 bool, fixed
 			expanded = true
 		}
 	}
-	// finding wildcard-nextcloser-ent: tagged by what was observed — every next closer name that exists although the
-	// Answer was accepted is an empty non-terminal and the denial records are NSEC; one offender of another kind and
-	// the case is reported strictly
-	fkey := ""
-	if offEnt > 0 && offOther == 0 {
-		fkey = "wildcard-nextcloser-ent"
-	}
+	// the former finding wildcard-nextcloser-ent (an empty non-terminal as next closer name, fixed by d3c4aec) is a
+	// strict regression class now: no case is tagged, every offender fails the check
 	tr.emit(map[string]any{
-		"k": k, "coq": coq, "go_fail": goFail, "fkey": fkey, "nontrivial": expanded && len(rrs) > 0,
+		"k": k, "coq": coq, "go_fail": goFail, "nontrivial": expanded && len(rrs) > 0,
 		"desc": map[string]any{"zone": z.desc(), "records": rdesc, "sigs": sdesc, "verdict": fmt.Sprintf("err=%d (%v) secure=%v", ec, err, secure)},
 	})
 }
